@@ -134,9 +134,12 @@ def run_kani(repo, crate, harnesses, jobs=8, timeout_s=600, playback=False, keep
         try:
             cdir = os.path.join(dst, crate)
             cmd = ["cargo", "kani", "-Z", "function-contracts", "-Z", "stubbing", "-Z", "unstable-options",
-                   "--harness-timeout", "%ds" % timeout_s, "-j", str(jobs), "--output-format", "terse"]
+                   "--harness-timeout", "%ds" % timeout_s, "--output-format", "terse"]
             if playback:
+                # concrete playback is incompatible with -j > 1
                 cmd += ["-Z", "concrete-playback", "--concrete-playback=print"]
+            else:
+                cmd += ["-j", str(jobs)]
             for h in harnesses:
                 cmd += ["--harness", h]
             env = dict(os.environ)
@@ -162,3 +165,45 @@ def run_kani(repo, crate, harnesses, jobs=8, timeout_s=600, playback=False, keep
         finally:
             if not keep:
                 shutil.rmtree(SCRATCH, ignore_errors=True)
+
+
+def run_playback(repo, crate, harness, test_src, log=None, quiet=False):
+    """Replay a Kani counterexample (concrete playback unit test) against the real crate.
+    Returns True when the test fails as predicted (the violation reproduces on real code)."""
+    os.makedirs(os.path.dirname(LOCK), exist_ok=True)
+    m = re.search(r"fn (kani_concrete_playback_\w+)", test_src)
+    if not m:
+        raise KaniToolFailure("no playback test in replay file")
+    tname = m.group(1)
+    short = harness.split("::")[-1]
+    hfile = None
+    for c, rel, hp in harness_files():
+        if c == crate and re.search(r"\bfn %s\b" % re.escape(short), open(hp).read()):
+            hfile, hrel = hp, rel
+    if not hfile:
+        raise KaniToolFailure("harness %s not found under kani/%s" % (short, crate))
+    with open(LOCK, "w") as lk:
+        fcntl.flock(lk, fcntl.LOCK_EX)
+        dst, _ = prepare_scratch(repo, only_crates=[crate])
+        try:
+            pb = os.path.join(SCRATCH, "playback_module.rs")
+            with open(pb, "w") as f:
+                f.write(open(hfile).read() + "\n" + test_src + "\n")
+            target = os.path.join(dst, crate, hrel)
+            txt = open(target).read().replace('#[path = "%s"]' % hfile, '#[path = "%s"]' % pb)
+            open(target, "w").write(txt)
+            env = dict(os.environ, CARGO_NET_OFFLINE="true", CARGO_TARGET_DIR=CACHE + "-playback")
+            cmd = ["cargo", "kani", "playback", "-Z", "concrete-playback", "--lib", "--", tname]
+            p = subprocess.run(cmd, cwd=os.path.join(dst, crate), env=env, capture_output=True, text=True)
+            out = p.stdout + "\n" + p.stderr
+            if log:
+                open(log, "w").write(out)
+            if not quiet:
+                print("\n".join(l for l in out.split("\n") if re.search(r"panicked|test result|^test |running", l))[-2500:])
+            failed = bool(re.search(r"test result: FAILED|panicked at", out))
+            ran = bool(re.search(r"running 1 test", out))
+            if not ran:
+                raise KaniToolFailure("playback test did not run: %s" % out[-1500:])
+            return failed
+        finally:
+            shutil.rmtree(SCRATCH, ignore_errors=True)
